@@ -32,11 +32,22 @@ import (
 	"github.com/cnotch/ipchub/media"
 	"github.com/cnotch/ipchub/provider/auth"
 	"github.com/cnotch/ipchub/service"
+	"github.com/cnotch/ipchub/utils"
 	"github.com/cnotch/xlog"
 	"github.com/gorilla/websocket"
 )
 
-const waitLimit = 20 * time.Second // generous: only ever waited out when an expected effect does not happen
+// Every wait below is for an EVENT (a response, a consumer attaching, a stream leaving the registry);
+// the limits are only ever waited out when the event does not happen at all.  A limit that expired
+// marks the world `slow`: the runner then discards the case and runs it again, alone, with limits
+// three times as long, and reports only what that second run shows (see run in main.go).
+const (
+	waitLimitBase = 60 * time.Second
+	hangLimitBase = 150 * time.Second // one whole operation, through execW
+)
+
+var waitLimit = waitLimitBase
+var hangLimit = hangLimitBase
 
 type prov struct{}
 
@@ -94,6 +105,7 @@ type rtspClient struct {
 	cseq      int
 	published *media.Stream
 	dead      bool
+	barrier   bool // the exchange in flight is the harness's own barrier: a client would not have sent it, its nonce is not taken
 }
 
 type wspClient struct {
@@ -103,6 +115,8 @@ type wspClient struct {
 }
 
 type world struct {
+	slow    bool // some wait limit expired during this case
+	wedged  bool // an operation never returned: the goroutine executing it is still blocked
 	tokens  []tokPair
 	streams map[string]*media.Stream // every stream object the harness knows, by registry key
 	ws      []*wsClient
@@ -111,13 +125,32 @@ type world struct {
 	cleanup []func()
 }
 
+// guarded runs a call into the implementation's global state under the hang watchdog
+func guarded(f func()) bool {
+	done := make(chan struct{})
+	go func() { defer close(done); f() }()
+	t := time.NewTimer(hangLimit)
+	defer t.Stop()
+	select {
+	case <-done:
+		return true
+	case <-t.C:
+		return false
+	}
+}
+
 func newWorld() *world {
 	setupService()
-	config.VerifSetAuth(true)
-	auth.Reset(&prov{})
-	media.UnregistAll()
-	svc.VerifResetTokens()
-	return &world{streams: map[string]*media.Stream{}, rtsp: map[string]*rtspClient{}}
+	w := &world{streams: map[string]*media.Stream{}, rtsp: map[string]*rtspClient{}}
+	if !guarded(func() {
+		config.VerifSetAuth(true)
+		auth.Reset(&prov{})
+		media.UnregistAll()
+		svc.VerifResetTokens()
+	}) {
+		w.slow, w.wedged = true, true // a lock of the implementation is never released: nothing can be executed
+	}
+	return w
 }
 
 func (w *world) close() {
@@ -127,7 +160,9 @@ func (w *world) close() {
 	for _, c := range w.ws {
 		c.c.Close()
 	}
-	media.UnregistAll()
+	if !w.wedged {
+		guarded(media.UnregistAll)
+	}
 	for i := len(w.cleanup) - 1; i >= 0; i-- {
 		w.cleanup[i]()
 	}
@@ -177,10 +212,44 @@ func (w *world) waitAttach(before map[string][2]int, table int, done <-chan stru
 		default:
 		}
 		if time.Now().After(deadline) {
+			w.slow = true
 			return ""
 		}
 		time.Sleep(200 * time.Microsecond)
 	}
+}
+
+// which stream has more consumers in `table` (0 RTP, 1 FLV) than in the snapshot, right now
+func (w *world) attachedNow(before map[string][2]int, table int) string {
+	for k, s := range w.streams {
+		r, f, _, _ := s.VerifTables()
+		n := [2]int{len(r), len(f)}
+		if n[table] > before[k][table] {
+			return k
+		}
+	}
+	return ""
+}
+
+// the registry key whose SDP a response body carries ("" if none): harness streams are named S<hex
+// of the key>, published ones P<session>-<cseq>
+func (w *world) sdpKey(body string) (string, bool) {
+	for _, l := range strings.Split(body, "\n") {
+		l = strings.TrimSpace(l)
+		if strings.HasPrefix(l, "s=S") {
+			if k, e := hex.DecodeString(l[3:]); e == nil {
+				return string(k), true
+			}
+		} else if strings.HasPrefix(l, "s=P") {
+			for k, s := range w.streams {
+				if strings.Contains(s.Sdp(), l) {
+					return k, true
+				}
+			}
+			return "?", true
+		}
+	}
+	return "", false
 }
 
 func (w *world) stopFlvConsumers() {
@@ -237,12 +306,15 @@ func (r *recorder) body() string {
 }
 
 // serve runs the real mux on a hand-built request (URL.Path is exactly `path`)
-func serve(method, path, rawQuery string, body []byte, hdr map[string]string) (rec *recorder, done chan struct{}, panicked *bool) {
+func serve(method, path, rawQuery string, body []byte, hdr http.Header) (rec *recorder, done chan struct{}, panicked *bool) {
 	req := httptest.NewRequest(method, "/", bytes.NewReader(body))
 	req.URL = &url.URL{Path: path, RawQuery: rawQuery}
 	req.RequestURI = req.URL.RequestURI()
-	for k, v := range hdr {
-		req.Header.Set(k, v)
+	for k, vs := range hdr {
+		for _, v := range vs {
+			// Add canonicalises the key exactly like the server's header reader does for a request off the wire
+			req.Header.Add(k, v)
+		}
 	}
 	rec = &recorder{ResponseRecorder: httptest.NewRecorder()}
 	done = make(chan struct{})
@@ -279,8 +351,65 @@ func tokenQuery(t string) string {
 
 // ---- operations ----
 
+// the spellings of the internal identity header a client may use: net/http maps every one of them to
+// the same key (textproto.CanonicalMIMEHeaderKey), on the wire and in Header.Add / Get / Set
+var identityKeys = []string{"user_name_in_token", "User_name_in_token", "USER_NAME_IN_TOKEN", "User_Name_In_Token"}
+
+// splitHdr takes an optional last field `H<hex>[,<hex>...]` off an op: the values of the identity
+// header the client sends itself
+func splitHdr(f []string) ([]string, http.Header) {
+	n := len(f)
+	if n == 0 || !strings.HasPrefix(f[n-1], "H") {
+		return f, nil
+	}
+	k := identityKeys[len(f[n-1])%len(identityKeys)]
+	h := http.Header{}
+	for _, v := range strings.Split(f[n-1][1:], ",") {
+		h[k] = append(h[k], string(Unhx(v)))
+	}
+	return f[:n-1], h
+}
+
+func (w *world) waitDone(done chan struct{}) bool {
+	t := time.NewTimer(waitLimit)
+	defer t.Stop()
+	select {
+	case <-done:
+		return true
+	case <-t.C:
+		w.slow = true
+		return false
+	}
+}
+
+// execW runs one operation under a watchdog: an operation that never returns (a lock never released,
+// a handler that blocks) becomes the outcome "hung"; the world is unusable afterwards.
+func (w *world) execW(op string) string {
+	if w.wedged {
+		return "skipped"
+	}
+	ch := make(chan string, 1)
+	go func() {
+		defer func() {
+			if r := recover(); r != nil {
+				ch <- "harness-panic"
+			}
+		}()
+		ch <- w.exec(op)
+	}()
+	t := time.NewTimer(hangLimit)
+	defer t.Stop()
+	select {
+	case r := <-ch:
+		return r
+	case <-t.C:
+		w.slow, w.wedged = true, true
+		return "hung"
+	}
+}
+
 func (w *world) exec(op string) string {
-	f := strings.Split(op, ":")
+	f, hdr := splitHdr(strings.Split(op, ":"))
 	switch f[0] {
 	case "auth":
 		config.VerifSetAuth(f[1] == "1")
@@ -308,18 +437,24 @@ func (w *world) exec(op string) string {
 	case "li":
 		b, _ := json.Marshal(map[string]string{"username": string(Unhx(f[1])), "password": secretStr(f[2])})
 		rec, done, _ := serve("POST", "/api/v1/login", "", b, nil)
-		<-done
+		if !w.waitDone(done) {
+			return "hung"
+		}
 		return w.issued(rec)
 	case "rf":
 		rec, done, _ := serve("GET", "/api/v1/refreshtoken", tokenQuery(w.tokStr(f[1])), nil, nil)
-		<-done
+		if !w.waitDone(done) {
+			return "hung"
+		}
 		return w.issued(rec)
 	case "hs":
-		return w.httpStream(methodName(f[1]), string(Unhx(f[2])), w.tokStr(f[3]))
+		return w.httpStream(methodName(f[1]), string(Unhx(f[2])), w.tokStr(f[3]), hdr)
 	case "ap":
 		m := map[string]string{"G": "GET", "D": "DELETE", "P": "POST", "C": "CONNECT"}[f[1]]
-		rec, done, _ := serve(m, string(Unhx(f[2])), tokenQuery(w.tokStr(f[3])), nil, nil)
-		<-done
+		rec, done, _ := serve(m, string(Unhx(f[2])), tokenQuery(w.tokStr(f[3])), nil, hdr)
+		if !w.waitDone(done) {
+			return "hung"
+		}
 		return apiOutcome(rec)
 	case "asv":
 		u := map[string]interface{}{"name": string(Unhx(f[2])), "admin": f[3] == "1", "push": string(Unhx(f[4])), "pull": string(Unhx(f[5])), "password": secretStr(f[6])}
@@ -331,15 +466,19 @@ func (w *world) exec(op string) string {
 			}
 			q += "update_password=1"
 		}
-		rec, done, _ := serve("POST", "/api/v1/users", q, b, nil)
-		<-done
+		rec, done, _ := serve("POST", "/api/v1/users", q, b, hdr)
+		if !w.waitDone(done) {
+			return "hung"
+		}
 		return apiOutcome(rec)
 	case "adl":
-		rec, done, _ := serve("DELETE", "/api/v1/users/"+string(Unhx(f[2])), tokenQuery(w.tokStr(f[1])), nil, nil)
-		<-done
+		rec, done, _ := serve("DELETE", "/api/v1/users/"+string(Unhx(f[2])), tokenQuery(w.tokStr(f[1])), nil, hdr)
+		if !w.waitDone(done) {
+			return "hung"
+		}
 		return apiOutcome(rec)
 	case "ws":
-		return w.wsUpgrade(f[1], string(Unhx(f[2])), w.tokStr(f[3]))
+		return w.wsUpgrade(f[1], string(Unhx(f[2])), w.tokStr(f[3]), hdr)
 	case "ro":
 		c1, c2 := net.Pipe()
 		svc.VerifAcceptRTSP(c2)
@@ -395,38 +534,30 @@ func apiOutcome(rec *recorder) string {
 	return "code" + strconv.Itoa(rec.Code)
 }
 
-func (w *world) httpStream(method, path, tok string) string {
+func (w *world) httpStream(method, path, tok string, hdr http.Header) string {
 	before := w.counts()
-	rec, done, panicked := serve(method, path, tokenQuery(tok), nil, nil)
+	rec, done, panicked := serve(method, path, tokenQuery(tok), nil, hdr)
 	// an FLV request blocks while it is being served: wait for the end of the handler or for a consumer
 	key := w.waitAttach(before, 1, done)
 	if key != "" {
+		// a consumer of `key` was attached to this response: media of `key` is being delivered,
+		// whatever status line and header went out before
 		w.stopFlvConsumers()
-		<-done
-		if strings.HasPrefix(rec.body(), "FLV") {
-			return "sv.flv." + Hx([]byte(key))
-		}
-		return "attached-without-header"
+		w.waitDone(done)
+		return "sv.flv." + Hx([]byte(key))
 	}
-	select {
-	case <-done:
-	case <-time.After(waitLimit):
+	if !w.waitDone(done) {
 		return "hung"
 	}
 	if *panicked {
 		return "panic"
 	}
 	body := rec.body()
+	// media is recognised by what the body IS, not by the status code or content type that came with it
 	switch {
-	case rec.Code == 301:
-		return "301"
-	case strings.HasPrefix(body, "<?xml") && rec.Header().Get("Content-Type") == "application/xml":
-		return "xd"
-	case rec.Code == 401:
-		return "401"
-	case rec.Code == 403:
-		return "403"
-	case rec.Code == 200 && rec.Header().Get("Content-Type") == "application/x-mpegURL":
+	case strings.HasPrefix(body, "TS:"):
+		return "sv.ts." + Hx([]byte(body[3:]))
+	case strings.HasPrefix(body, "#EXTM3U"):
 		// which stream's playlist: the segment URIs are /streams<key>/<seq>.ts
 		for _, l := range strings.Split(body, "\n") {
 			if strings.HasPrefix(l, "/streams") {
@@ -436,25 +567,38 @@ func (w *world) httpStream(method, path, tok string) string {
 			}
 		}
 		return "m3u8-without-segments"
-	case rec.Code == 200 && rec.Header().Get("Content-Type") == "video/mp2ts":
-		if strings.HasPrefix(body, "TS:") {
-			return "sv.ts." + Hx([]byte(body[3:]))
-		}
-		return "ts-foreign-body"
+	case strings.HasPrefix(body, "FLV"):
+		return "flv-header-without-consumer"
+	case rec.Code == 301:
+		return "301"
+	case strings.HasPrefix(body, "<?xml") && rec.Header().Get("Content-Type") == "application/xml":
+		return "xd"
+	case rec.Code == 401:
+		return "401"
+	case rec.Code == 403:
+		return "403"
+	case rec.Code == 200:
+		return "ok-without-media"
 	}
 	return "nm." + strconv.Itoa(rec.Code)
 }
 
-func (w *world) wsUpgrade(sub, path, tok string) string {
+func isTimeout(err error) bool {
+	ne, ok := err.(net.Error)
+	return ok && ne.Timeout()
+}
+
+func (w *world) wsUpgrade(sub, path, tok string, hdr http.Header) string {
 	d := websocket.Dialer{HandshakeTimeout: waitLimit}
 	if sub != "none" {
 		d.Subprotocols = []string{sub}
 	}
 	u := url.URL{Scheme: "ws", Host: strings.TrimPrefix(httpSrv.URL, "http://"), Path: path, RawQuery: tokenQuery(tok)}
 	before := w.counts()
-	c, resp, err := d.Dial(u.String(), nil)
+	c, resp, err := d.Dial(u.String(), hdr)
 	if err != nil {
 		if resp == nil {
+			w.slow = true // no HTTP answer at all: the handshake limit, or the loop-back socket failed
 			return "dial-error"
 		}
 		b, _ := io.ReadAll(resp.Body)
@@ -484,6 +628,10 @@ func (w *world) wsUpgrade(sub, path, tok string) string {
 	c.SetReadDeadline(time.Now().Add(waitLimit))
 	_, msg, err := c.ReadMessage()
 	if err != nil {
+		if isTimeout(err) {
+			w.slow = true
+			return "ws-silent"
+		}
 		return "cl." + strconv.Itoa(j)
 	}
 	if !bytes.HasPrefix(msg, []byte("FLV")) {
@@ -567,7 +715,7 @@ func (c *rtspClient) roundTrip(req string, expectResponse bool) (code int, hdr m
 		}
 		body = string(b)
 	}
-	if a := hdr["www-authenticate"]; a != "" {
+	if a := hdr["www-authenticate"]; a != "" && !c.barrier {
 		if i := strings.Index(a, `nonce="`); i >= 0 {
 			n := a[i+7:]
 			if j := strings.Index(n, `"`); j >= 0 {
@@ -667,48 +815,46 @@ func (w *world) rtspRequest(f []string) string {
 	}
 	code, _, rbody, err := c.roundTrip(b.String(), true)
 	if err != nil {
+		if isTimeout(err) {
+			w.slow = true
+		}
 		return "io:" + strings.ReplaceAll(err.Error(), " ", "_")
 	}
-	eff := "-"
-	if code == 200 {
-		switch method {
-		case "DESCRIBE":
-			eff = "d.?"
-			for _, l := range strings.Split(rbody, "\n") {
-				l = strings.TrimSpace(l)
-				if strings.HasPrefix(l, "s=S") {
-					if k, e := hex.DecodeString(l[3:]); e == nil {
-						eff = "d." + Hx(k)
-					}
-				} else if strings.HasPrefix(l, "s=P") {
-					// a published stream: find it by its SDP
-					for k, s := range w.streams {
-						if strings.Contains(s.Sdp(), l) {
-							eff = "d." + Hx([]byte(k))
-						}
-					}
-				}
-			}
-		case "PLAY":
-			if k := w.waitAttach(before, 0, nil); k != "" {
-				eff = "p." + Hx([]byte(k))
-			} else {
-				eff = "p.?"
-			}
-		case "RECORD":
-			// which registry key now holds a stream the harness has not seen
-			_, infos := media.Infos("", 100000, false)
-			for _, si := range infos {
-				if s := media.Get(si.Path); s != nil && !known[s] {
-					eff = "b." + Hx([]byte(s.Path()))
-					w.streams[s.Path()] = s
-					addSegments(s, s.Path())
-					c.published = s
-				}
-			}
-		case "TEARDOWN":
+	if method == "TEARDOWN" {
+		if code == 200 {
 			w.waitUnpublished(c)
 			c.dead = true
+		}
+		return strconv.Itoa(code) + "/-"
+	}
+	// Barrier: the session handles its requests one after the other, and some handlers act AFTER they
+	// have written the response (PLAY attaches the consumer then).  OPTIONS is answered in every state
+	// without touching the session; once its answer is here, everything the request did has happened.
+	c.cseq++
+	c.barrier = true
+	if _, _, _, berr := c.roundTrip(fmt.Sprintf("OPTIONS %s RTSP/1.0\r\nCSeq: %d\r\n\r\n", u.String(), c.cseq), true); berr != nil && isTimeout(berr) {
+		w.slow = true
+	}
+	c.barrier = false
+	// What the request DID, whatever its status code says: an SDP in the body, a consumer attached to
+	// this connection, a stream in the registry that was not there.
+	eff := "-"
+	if k, ok := w.sdpKey(rbody); ok {
+		eff = "d." + Hx([]byte(k))
+		if k == "?" {
+			eff = "d.?"
+		}
+	}
+	if k := w.attachedNow(before, 0); k != "" {
+		eff = "p." + Hx([]byte(k))
+	}
+	_, infos := media.Infos("", 100000, false)
+	for _, si := range infos {
+		if s := media.Get(si.Path); s != nil && !known[s] {
+			eff = "b." + Hx([]byte(s.Path()))
+			w.streams[s.Path()] = s
+			addSegments(s, s.Path())
+			c.published = s
 		}
 	}
 	return strconv.Itoa(code) + "/" + eff
@@ -722,7 +868,11 @@ func (w *world) waitUnpublished(c *rtspClient) {
 	s := c.published
 	c.published = nil
 	deadline := time.Now().Add(waitLimit)
-	for media.Get(s.Path()) == s && time.Now().Before(deadline) {
+	for media.Get(s.Path()) == s {
+		if !time.Now().Before(deadline) {
+			w.slow = true
+			break
+		}
 		time.Sleep(200 * time.Microsecond)
 	}
 	if w.streams[s.Path()] == s {
@@ -756,6 +906,9 @@ func (w *world) wspInit(j string) string {
 	}
 	resp, err := wspExchange(w.ws[i].c, "WSP/1.1 INIT\r\nproto: rtsp\r\nseq: 1\r\n\r\n")
 	if err != nil {
+		if isTimeout(err) {
+			w.slow = true
+		}
 		return "io"
 	}
 	ch := ""
@@ -782,6 +935,9 @@ func (w *world) wspJoin(j, chref string) string {
 	}
 	resp, err := wspExchange(w.ws[i].c, "WSP/1.1 JOIN\r\nchannel: "+ch+"\r\nseq: 1\r\n\r\n")
 	if err != nil {
+		if isTimeout(err) {
+			w.slow = true
+		}
 		return "io"
 	}
 	return wspCode(resp)
@@ -801,7 +957,9 @@ func (w *world) wspWrap(f []string) string {
 	}
 	p := c.ctl.path
 	// the stream path of the ws URL: /streams<path>
-	p = strings.TrimPrefix(p, "/streams")
+	// (the session takes its path from the WebSocket connection, not from this URL: the wrapped requests
+	// name the stream by its registry key, as a player that follows the SDP's control URLs does)
+	p = utils.CanonicalPath(strings.TrimPrefix(p, "/streams"))
 	u := "rtsp://h" + p
 	if method == "SETUP" {
 		switch f[3] {
@@ -826,6 +984,9 @@ func (w *world) wspWrap(f []string) string {
 	before := w.counts()
 	resp, err := wspExchange(c.ctl.c, fmt.Sprintf("WSP/1.1 WRAP\r\nseq: %d\r\n\r\n%s", c.seq, b.String()))
 	if err != nil {
+		if isTimeout(err) {
+			w.slow = true
+		}
 		return "io"
 	}
 	i2 := strings.Index(resp, "\r\n\r\n")
@@ -834,34 +995,16 @@ func (w *world) wspWrap(f []string) string {
 	}
 	inner := resp[i2+4:]
 	code := wspCode(inner)
+	// what the request did, whatever its status code says (StartConsume happens before the response is written)
 	eff := "-"
-	if code == "200" {
-		switch method {
-		case "DESCRIBE":
+	if k, ok := w.sdpKey(inner); ok {
+		eff = "d." + Hx([]byte(k))
+		if k == "?" {
 			eff = "d.?"
-			for _, l := range strings.Split(inner, "\n") {
-				l = strings.TrimSpace(l)
-				if strings.HasPrefix(l, "s=S") {
-					if k, e := hex.DecodeString(l[3:]); e == nil {
-						eff = "d." + Hx(k)
-					}
-				} else if strings.HasPrefix(l, "s=P") {
-					for k, s := range w.streams {
-						if strings.Contains(s.Sdp(), l) {
-							eff = "d." + Hx([]byte(k))
-						}
-					}
-				}
-			}
-		case "PLAY":
-			// StartConsume happens before the response is written
-			after := w.counts()
-			for k, n := range after {
-				if n[0] > before[k][0] {
-					eff = "p." + Hx([]byte(k))
-				}
-			}
 		}
+	}
+	if k := w.attachedNow(before, 0); k != "" {
+		eff = "p." + Hx([]byte(k))
 	}
 	return code + "/" + eff
 }
